@@ -702,13 +702,26 @@ async fn run_script_once(cfg: Value, sc: Value, verdict: Vec<String>, tls: Tls, 
     };
     let l = listen_tcp("127.0.0.1:0".parse().unwrap(), b, &tls, "url", &log).unwrap_or_else(|e| infra(&format!("bind ephemeral: {}", e)));
     let verify = cfg["verify"].as_bool().unwrap_or(true);
-    let mut st = LdapConnSettings::new().set_starttls(mode == "starttls").set_no_tls_verify(!verify);
+    let via = s(&cfg, "via");
+    let short = s(&cfg, "timeout") == "short";
+    let connect = || {
+        let c = std::net::TcpStream::connect(("127.0.0.1", l.port)).unwrap_or_else(|e| infra(&format!("connect to own listener: {}", e)));
+        c.set_nonblocking(true).ok();
+        StdStream::Tcp(c)
+    };
+    let mut st = LdapConnSettings::new();
+    if via == "stream-first" {
+        st = st.set_std_stream(connect());
+    }
+    st = st.set_starttls(mode == "starttls").set_no_tls_verify(!verify);
     if s(&cfg, "connector") == "custom" {
         st = st.set_connector(tls.custom.clone());
     }
-    let short = s(&cfg, "timeout") == "short";
     if short {
         st = st.set_conn_timeout(Duration::from_millis(short_ms));
+    }
+    if via == "stream-last" {
+        st = st.set_std_stream(connect());
     }
     let url = format!("{}://localhost:{}", if mode == "ldaps" { "ldaps" } else { "ldap" }, l.port);
     let bound = if verdict.iter().any(|v| v == "pending") { pending_ms } else { HANG_MS.max(short_ms + LATE_MS + 500) };
@@ -815,6 +828,7 @@ fn replay_est(tlc_out: &str, report: &str, ndjson: &str, dir: &Path) {
         rep.count(&format!("inj_{}", s(sc, "inj")));
         rep.count(&format!("hs_{}", s(sc, "hs")));
         rep.count(&format!("connector_{}_verify_{}", s(cfg, "connector"), cfg["verify"]));
+        rep.count(&format!("via_{}", s(cfg, "via")));
         rep.count(&format!("timeout_{}", s(cfg, "timeout")));
         if o.result == "ok" {
             rep.count(&format!("ready_verify_{}_cert_{}", cfg["verify"], s(sc, "hs")));
